@@ -356,3 +356,96 @@ for _st in (None, 2, -1):
     _add(mk_auto_two_step(_st))
 _add(mk_auto_two_step(3, tier='thorough'))
 _add(mk_auto_two_step(-2, tier='thorough'))
+
+
+
+# ---------------------------------------------------------------- column KINDS symbolic, every block layout
+
+SEL_KINDS = (('int64', (3, 4)), ('float64', (1.5, 2.5)), ('bool', (True, False)), ('<U1', ('x', 'y')))
+ROW_KEYS = (0, 1, slice(None), [1, 0])
+COL_KEYS = (0, 2, slice(0, 2), slice(None, None, -1), [2, 0], [True, False, True])
+
+
+def _lays_for(kinds):
+    out = []
+    for lay in layouts.compositions(len(kinds)):
+        j, ok = 0, True
+        for nd, w in lay:
+            if len(set(kinds[j:j + w])) > 1:
+                ok = False
+            j += w
+        if ok:
+            out.append(lay)
+    return out
+
+
+def body_sel_kinds(env, k1, k2, rk, ck):
+    from vf import rt
+    kinds = [0]
+    for k in (k1, k2):
+        for c in range(len(SEL_KINDS)):
+            if k == c:
+                kinds.append(c)
+    rkey = ckey = None
+    for i, key in enumerate(ROW_KEYS):
+        if rk == i:
+            rkey = key
+    for i, key in enumerate(COL_KEYS):
+        if ck == i:
+            ckey = key
+
+    def run():
+        sf = env.sf
+        from static_frame.core.type_blocks import TypeBlocks
+        cols = [list(SEL_KINDS[k][1]) for k in kinds]
+        # distinct cells per column position so that a mixed-up column shows
+        cols[0] = [3, 4]
+        rows = [[cols[c][r] for c in range(3)] for r in range(2)]
+        index, columns = [10, 11], ['a', 'b', 'c']
+        dts = [SEL_KINDS[k][0] for k in kinds]
+        exp = ref_frame_select(rows, index, columns, rkey, ckey)
+        cpos, cmulti = py_positions(ckey, 3)
+        rpos, rmulti = py_positions(rkey, 2)
+        if exp[0] == 'F':
+            exp = exp + [[env.xp.dtype(dts[j]).kind for j in cpos]]
+        got = []
+        for lay in _lays_for(kinds):
+            tb = TypeBlocks.from_blocks(layouts.build_blocks_typed(env, cols, dts, lay))
+            f = sf.Frame(tb, index=index, columns=columns)
+            # a Boolean key is passed as a Boolean ARRAY (the documented form; a Python list of bools is read as a mask by
+            # the blocks and as positions by the labels and raises ErrorInitFrame: outside the documented key types)
+            lib_ckey = env.array(list(ckey), 'bool') if (isinstance(ckey, list) and isinstance(ckey[0], bool)) else ckey
+            r = f.iloc[rkey, lib_ckey]
+            o = obs_container(env, r)
+            if o[0] == 'F':
+                o = o + [[dt.kind for dt in r._blocks._dtypes]]
+            got.append(o)
+        return got, [exp] * len(got)
+    return rt.untraced(run)
+
+
+_add(Cond('selection_column_kinds_all_layouts', [('k1', 'int'), ('k2', 'int'), ('rk', 'int'), ('ck', 'int')], body_sel_kinds,
+        ranges={'k1': (0, 3), 'k2': (0, 3), 'rk': (0, len(ROW_KEYS) - 1), 'ck': (0, len(COL_KEYS) - 1)},
+        functions=['TypeBlocks._extract', 'TypeBlocks._slice_blocks'],
+        bounds='2x3 frame; the kind of the 2nd and 3rd column symbolic over (int64, float64, bool, str); row key symbolic over (0, 1, :, [1, 0]), column key over (0, 2, 0:2, ::-1, [2, 0], Boolean mask); EVERY block layout that can hold the kinds; concrete cells',
+        route='Frame.iloc[row key, column key] on mixed column kinds: the addressed cells with their labels, value AND type kept (a Frame result keeps every column dtype), the same over all block layouts', timeout=400))
+
+
+# ---------------------------------------------------------------- E3: unbounded second opinion on two integer kernels of selection
+
+def extra_queries(tier):
+    """TypeBlocks._cols_to_slice (a run of contiguous positions inside a block -> slice) and util.slice_to_inclusive_slice
+    (label slices include their stop label) translated from their CURRENT source (AST -> z3), ALL integers."""
+    from vf import e3, world
+    e3.validate_spec()
+    recs = e3.check_cols_to_slice(world.REPO) + e3.check_inclusive(world.REPO)
+    for r in recs:
+        r['expect'] = 'exactly the positions of the run, in its direction' if 'cols_to_slice' in r['cond'] else 'start + offset, stop + 1 + offset, step and None kept'
+    return recs
+
+
+def extra_replay(rec):
+    from vf import e3, world
+    if 'cols_to_slice' in rec['cond']:
+        return e3.replay_cols_to_slice(world.REPO, rec['args'])
+    return e3.replay_inclusive(world.REPO, rec['args'])
